@@ -1,5 +1,5 @@
 (* C02 — sealed frames.  Property theorems only; proofs in FrameProofs.v. *)
-From Verif Require Import Prelude Gen Frame FrameProofs Translated.
+From Verif Require Import Prelude Gen Frame FrameProofs Seq SeqProofs Translated.
 
 (* Layout: a built frame parses to the indices it was built with and every accessor returns
    the input it was built from (all message types, payload 1..limit, switch block 0..255,
@@ -107,6 +107,23 @@ Theorem C02_enc_class_consistent : forall ty, ty < 256 ->
   is_enc ty = (msg_class ty =? class_prio_enc) || (msg_class ty =? class_enc).
 Proof. exact enc_class_consistent. Qed.
 Print Assumptions C02_enc_class_consistent.
+
+(* A rejected frame leaves no trace at the receiver.  Unseal = authenticate (signature / AEAD),
+   THEN the replay filter; a frame that fails authentication takes no step of the filter, so the
+   frames that are delivered out of any history are exactly those the filter accepts out of the
+   authentic frames alone — whatever sequence numbers or timestamps the forgeries carried, and
+   however many there were.  (Tied to the code by the harness: every tampered frame is followed by
+   the genuine frame on the same receiver state, and C03's histories carry forged sequence
+   fields.) *)
+Theorem C02_rejected_frames_leave_no_trace_enc : forall (l : list (N * bool)) s,
+  delivered s l = accepted check s (map fst (filter snd l)).
+Proof. intros l s. apply delivered_is_accepted. Qed.
+Print Assumptions C02_rejected_frames_leave_no_trace_enc.
+
+Theorem C02_rejected_frames_leave_no_trace_signed : forall (l : list (Z * bool)) latest,
+  tdelivered latest l = taccepted latest (map fst (filter snd l)).
+Proof. intros l latest. apply tdelivered_is_taccepted. Qed.
+Print Assumptions C02_rejected_frames_leave_no_trace_signed.
 
 (* non-vacuity: a concrete encrypted-class frame with switch block and appendix *)
 Example C02_nonvacuous :
